@@ -268,3 +268,24 @@ pub fn run_script_shadow(cfg: &OptCfg, init: &[f64], bounds: &[(f64, f64)], kt_z
 pub fn same_bits(a: &[f64], b: &[f64]) -> bool {
     a.len() == b.len() && a.iter().zip(b.iter()).all(|(x, y)| x.to_bits() == y.to_bits())
 }
+
+
+/// a compressed start state: the input quenched for `steps` steps at kT = 0 (no probe attached), handed back through
+/// serde_json::Value (bit-exact)
+pub fn warm_start<S>(state: S, steps: u64, seed: u64) -> Result<S, String>
+where
+    S: State + Serialize + serde::de::DeserializeOwned,
+{
+    if steps == 0 {
+        return Ok(state);
+    }
+    let cfg = OptCfg { steps, inner: 1000, kt_start: 0., kt_finish: None, kt_ratio: Some(0.), max_step: 0.05, convergence: None, seed };
+    let res = catch_unwind(AssertUnwindSafe(move || {
+        let out = cfg.build().optimise_state(state);
+        serde_json::to_value(&out).ok()
+    }));
+    match res {
+        Ok(Some(v)) => serde_json::from_value(v).map_err(|e| e.to_string()),
+        _ => Err("warm start failed".to_string()),
+    }
+}
